@@ -43,8 +43,9 @@ func TestVerifC18(t *testing.T) {
 	defer meta.close()
 	si, sn := vShard()
 	full := os.Getenv("VERIF_FULL") != ""
-	levels := []int{-1, 50, 90, 92, 95, 99}
-	repLevels := []int{50, 90, 92, 95, 99}
+	// usage in PER MILLE (thresholds 95 % = 950, 90 % = 900): 904 and 955 are fractions of a percent above a threshold
+	levels := []int{-1, 500, 900, 904, 920, 950, 990}
+	repLevels := []int{500, 900, 920, 950, 990}
 	type repKind struct {
 		usage   int
 		running bool // semi-sync slave enabled and replication running
@@ -54,7 +55,8 @@ func TestVerifC18(t *testing.T) {
 	for _, u := range repLevels {
 		repOpts = append(repOpts, repKind{u, true, 0})
 	}
-	repOpts = append(repOpts, repKind{99, false, 1}, repKind{99, false, 2}, repKind{99, false, 3}, repKind{50, false, 1})
+	repOpts = append(repOpts, repKind{990, false, 1}, repKind{990, false, 2}, repKind{990, false, 3}, repKind{500, false, 1})
+	repOpts = append(repOpts, repKind{904, true, 0}) // a running replica a fraction of a percent inside the grey zone
 	cells := 0
 	for _, keep := range []bool{false, true} {
 		for _, semi := range []bool{true, false} {
@@ -119,10 +121,10 @@ func TestVerifC18(t *testing.T) {
 								dcsState := map[string]*nodestate.NodeState{}
 								ms := *masterState
 								if mu >= 0 {
-									ms.DiskState = &nodestate.DiskState{Used: uint64(10 * mu), Total: 1000}
+									ms.DiskState = &nodestate.DiskState{Used: uint64(mu), Total: 1000}
 								}
 								dcsState["h1"] = &ms
-								row := diskRow{Kind: "disk", Mu: mu, Wsc: wsc, Crit: 95, NC: 90, KeepSuper: cfgKeep, SemiSync: cfgSemi, ROBefore: ro, Reps: []diskRep{}}
+								row := diskRow{Kind: "disk", Mu: mu, Wsc: wsc, Crit: 950, NC: 900, KeepSuper: cfgKeep, SemiSync: cfgSemi, ROBefore: ro, Reps: []diskRep{}}
 								for k, r := range rs {
 									h := hosts[k+1]
 									ns := &nodestate.NodeState{PingOk: true, IsReadOnly: true, IsSuperReadOnly: true,
@@ -132,7 +134,7 @@ func TestVerifC18(t *testing.T) {
 										ns.SlaveState.ReplicationState = mysql.ReplicationStopped
 									}
 									if r.mode != 3 {
-										ns.DiskState = &nodestate.DiskState{Used: uint64(10 * r.usage), Total: 1000}
+										ns.DiskState = &nodestate.DiskState{Used: uint64(r.usage), Total: 1000}
 									}
 									dcsState[h] = ns
 									if r.mode != 3 {
